@@ -344,7 +344,7 @@ def _chain_case(override, top, levels):
 # Part 1b: an @import that is resolved after the referring sheet has been parsed (rule added, href set, rule built with a parent)
 # climbs the same ladder as one resolved during the parse: without information of its own it takes the referring sheet's encoding
 
-LATE_TOPS = ['url-transport', 'url-charset', 'url-bom', 'bytes-charset', 'text-charset', 'imported-by-transport', 'imported-by-charset']
+LATE_TOPS = ['url-transport', 'url-charset', 'url-bom', 'url-bom16', 'bytes-bom16', 'bytes-charset', 'text-charset', 'imported-by-transport', 'imported-by-charset']
 LATE_HOW = ['during-parse', 'add(rule)', 'insertRule(rule)', 'href=', 'CSSImportRule(parentStyleSheet=)', 'add(text)']
 LATE_CHILD = [['none', None], ['none', 'cp866'], ['charset', None]]  # (marker of the late sheet, its transport charset)
 
@@ -369,6 +369,12 @@ def _late_referrer(top, with_import):
     elif top == 'url-bom':
         table[TOP_HREF] = (None, codecs.BOM_UTF8 + body)
         mode = 'url'
+    elif top == 'url-bom16':
+        # the byte order mark is the only thing that tells the encoding (and the decoder eats it)
+        table[TOP_HREF] = (None, codecs.BOM_UTF16_LE + body.decode('ascii').encode('utf-16-le'))
+        mode = 'url'
+    elif top == 'bytes-bom16':
+        src, mode = codecs.BOM_UTF16_LE + body.decode('ascii').encode('utf-16-le'), 'bytes'
     elif top == 'bytes-charset':
         src, mode = b'@charset "iso-8859-5";' + body, 'bytes'
     elif top == 'bytes-encoding-arg':
@@ -386,6 +392,11 @@ def _run_late(res, case):
     guard.pristine()
     mode, src, table = _late_referrer(top, how == 'during-parse')
     late_src = (b'@charset "cp850";' if cm == 'charset' else b'') + b'.m{content:"' + MARK + b'"}'
+    wide = top.endswith('bom16')
+    if wide:
+        if cm != 'none' or chttp:
+            return  # (a wide parent is only combined with a late sheet that says nothing about itself)
+        late_src = '.m{content:"\xe9"}'.encode('utf-16-le')
     table['http://x/late.css'] = (chttp, late_src)
     log = []
 
@@ -443,6 +454,10 @@ def _run_late(res, case):
         res.violation('C08.ladder', f'late-import-not-loaded|{how}|expected={rung}', case, want, None if obs is None else obs)
         return
     got = ref.norm(obs['encoding'])
+    if wide:
+        if got != want or obs['marker'] != '\xe9':
+            res.violation('C08.ladder', f'late-import-encoding|{how}|expected={rung}|wide-parent', case, [want, '\xe9'], [got, obs['marker']])
+        return
     if got != want or obs['marker'] != MARK.decode(want):
         res.violation('C08.ladder', f'late-import-encoding|{how}|expected={rung}|observed={DECODED_AS.get(obs["marker"], got)}', case,
                       [want, MARK.decode(want)], [got, obs['marker']])
